@@ -103,7 +103,7 @@ def to_events(trace_path, out_path):
                 lexicals_of(cur, lex)
                 lexicals_of(m.get("op", {}), lex)
                 lex.discard("")
-                kind, num, rank, canon = G.tables(lex)
+                kind, num, rank, canon = G.tables(lex, G.resource_terms(prev["quads"]) | G.resource_terms(cur["quads"]))
                 pre_terms = {t for q in prev["quads"] for t in q}
                 fresh = sorted({t for q in cur["quads"] for t in q if t.startswith("_:kolibrie-update-") and t not in pre_terms})
                 e = {"ev": "req", "run": eid, "cls": m["cls"] if m["cls"] != "setup" else "fuzzed", "ep": st["ep"], "res": st["res"], "pre": prev, "post": cur,
